@@ -33,7 +33,9 @@ LEVEL_TEXT = ("Lean theorems over ℝ / IEEE classes: a component outside [lower
               "lies outside its interpolation range, the lens is assigned to a line-of-sight population of unknown kind, or a "
               "declared scaling parameter is not among the statically realised parameters — never because of a draw, for every "
               "stream and recursion depth (no_range_error, inside_box_inside_range), and conversely a missing scaling "
-              "parameter always raises.  Correspondence: class of the result and evaluated-or-not on random "
+              "parameter always raises; the per-lens slope index handed out by LensSampleLikelihood always addresses the slope "
+              "list that ParamManager builds, for every lens order (slope_index_no_error: draw_lens never raises IndexError; "
+              "an index beyond the list would raise at once, slope_index_outside_raises).  Correspondence: class of the result and evaluated-or-not on random "
               "configurations; the statement evaluated on CosmoLikelihood.likelihood with the prior box stated BY NAME from the user's "
               "bound dictionaries (log10 for the scatters sampled in log-space), every component pushed just outside its own bounds.")
 LEVEL_NOTE = ("partial: non-NaN behaviour of astropy/numpy/scipy inside the box is a hypothesis on the externals (explored by the "
@@ -273,8 +275,13 @@ def evaluate(cl, x, interp=None):
             return r
         cl._sne_likelihood.log_likelihood = sw
     try:
-        with np.errstate(all="ignore"):
-            v = cl.likelihood(list(x)) if interp is None else cl.likelihood(list(x), kwargs_cosmo_interp=interp)
+        # the diagnostic flag only prints: the statement holds with and without it (decided by the vector itself, so a
+        # replay takes the same path)
+        verbose = (int(abs(float(x[0])) * 1e6) % 4 == 0)
+        import contextlib, io
+        with np.errstate(all="ignore"), contextlib.redirect_stdout(io.StringIO()):
+            kwv = {"verbose": True} if verbose else {}
+            v = cl.likelihood(list(x), **kwv) if interp is None else cl.likelihood(list(x), kwargs_cosmo_interp=interp, **kwv)
         out = {"value": float(np.squeeze(v))}
     except Exception as e:  # noqa
         out = {"err": err_enum(e), "msg": str(e)[:100]}
